@@ -452,7 +452,7 @@ func runPass(def *CheckDef, tier string, seed uint64, exe, mode string, limit in
 					"--gen", strconv.Itoa(gen), "--limit", strconv.Itoa(limit), "--dir", dir)
 				cmd.Stdout = ef
 				cmd.Stderr = ef
-				cmd.Env = append(os.Environ(), "GORACE=halt_on_error=0 log_path="+filepath.Join(dir, fmt.Sprintf("race.w%d.g%d", w, gen)))
+				cmd.Env = append(os.Environ(), "GORACE=halt_on_error=0 exitcode=0 log_path="+filepath.Join(dir, fmt.Sprintf("race.w%d.g%d", w, gen)))
 				cmd.Env = append(cmd.Env, extraEnv...)
 				err := cmd.Run()
 				ef.Close()
